@@ -265,6 +265,29 @@ func Run(s Sess) mon.Result {
 	pairs := map[[2]int]bool{}
 	nontrivial := false
 
+	// simulate: the reference tracks the device's true mode through payload lines as well: a line that is a
+	// valid transition command in the mode it is typed in (the mode's own de-escalate, a child's escalate
+	// on an edge where the device does not ask) moves the device.
+	simulate := func(mode int, lines []string) (out []rec, end int) {
+		for _, line := range lines {
+			out = append(out, rec{s.Levels[mode].Name, "cmd", line})
+			moved := false
+			for _, li := range byEsc[line] {
+				if s.Levels[li].Parent == mode && !s.Levels[li].Asks {
+					mode, moved = li, true
+					break
+				}
+			}
+			if !moved && s.Levels[mode].Parent >= 0 && line == s.Levels[mode].Deesc {
+				mode = s.Levels[mode].Parent
+			}
+		}
+		return out, mode
+	}
+	// unsynced: a payload moved the device since the library last read a prompt for privilege purposes
+	unsynced := false
+	witness := ""
+
 	for oi, op := range s.Ops {
 		before := snapshot()
 		from := idx[before.mode]
@@ -373,10 +396,18 @@ func Run(s Sess) mon.Result {
 					{ChannelInput: s.Hidden, ChannelResponse: `(?i)enter value:\s*$`},
 					{ChannelInput: "v4lue", ChannelResponse: "", HideInput: true},
 				}
-			} else {
+			} else if op.Inter != "move" {
 				ev = []*channel.SendInteractiveEvent{
 					{ChannelInput: s.Confirm, ChannelResponse: `\[confirm\]`},
 					{ChannelInput: "y", ChannelResponse: ""},
+				}
+			}
+			if op.Inter == "move" || op.Inter == "confirm+move" {
+				// events that walk into another mode: each expects the prompt of the mode it enters
+				m := target
+				for _, line := range op.Lines {
+					_, m = simulate(m, []string{line})
+					ev = append(ev, &channel.SendInteractiveEvent{ChannelInput: line, ChannelResponse: s.Levels[m].Pattern})
 				}
 			}
 			_, oerr = nd.SendInteractive(ev, oo...)
@@ -456,17 +487,45 @@ func Run(s Sess) mon.Result {
 		}
 
 		tname := s.Levels[target].Name
+		endMode := target
 		switch op.Kind {
 		case "command", "commands", "config", "configs":
-			for _, l := range op.Lines {
-				payloadWant = append(payloadWant, rec{tname, "cmd", l})
-			}
+			payloadWant, endMode = simulate(target, op.Lines)
 		case "interactive":
-			if op.Inter == "hidden" {
+			switch op.Inter {
+			case "hidden":
 				payloadWant = []rec{{tname, "cmd", s.Hidden}, {tname, "hidden", "v4lue"}}
-			} else {
+			case "move":
+				payloadWant, endMode = simulate(target, op.Lines)
+			default:
 				payloadWant = []rec{{tname, "cmd", s.Confirm}, {tname, "cmd", "y"}}
+				if op.Inter == "confirm+move" {
+					var mv []rec
+					mv, endMode = simulate(target, op.Lines)
+					payloadWant = append(payloadWant, mv...)
+				}
 			}
+		}
+		ename := s.Levels[endMode].Name
+		isCommand := op.Kind == "command" || op.Kind == "commands"
+		if unsynced && isCommand && cached == s.Levels[s.Default].Name && from != s.Default {
+			// Documented exception: SendCommand(s) consult only the cached level. After a payload moved the
+			// device (which the cache cannot know) the pinned library types the command where the device is.
+			// Not judged; counted.
+			if len(got) > 0 && got[0].Mode != tname {
+				obs["sendcommand_after_payload_move_ran_at_wrong_level"]++
+				tag("sendcommand-after-payload-move=ran-at-wrong-level(not judged)")
+				if witness == "" {
+					witness = fmt.Sprintf("%s: device in %q, cached level %q = default; device received %s", desc, before.mode, cached, recsString(got))
+				}
+			} else {
+				obs["sendcommand_after_payload_move_ran_at_right_level"]++
+			}
+			obs["ops_not_judged"]++
+			continue
+		}
+		if unsynced && isCommand {
+			obs["sendcommand_after_payload_move_ran_at_right_level"]++
 		}
 		up, down := treePath(parentsOf(s.Levels), from, target)
 		pathWant, asked := expectedPath(&s, from, target)
@@ -483,15 +542,17 @@ func Run(s Sess) mon.Result {
 			return bad(fmt.Sprintf("c04/error:%s:%s", shape, errClass(oerr)), "returned %v\n device received %s\n path expects    %s; device now in %q (%s)",
 				oerr, recsString(got), recsString(want), after.mode, after.state)
 		}
-		// 1. payload lines at the right level
-		isPayload := map[string]bool{}
-		for _, p := range payloadWant {
-			isPayload[p.Line] = true
-		}
-		for _, g := range got {
-			if isPayload[g.Line] && g.Mode != tname {
-				return bad("c04/line-at-wrong-level:"+op.Kind, "line %q arrived while the device was in %q, must arrive in %q\n device received %s\n expected        %s",
-					g.Line, g.Mode, tname, recsString(got), recsString(want))
+		// 1. payload lines at the right level: the last len(payload) lines the device received are the payload
+		if k := len(got) - len(payloadWant); k >= 0 {
+			texts := true
+			for i, p := range payloadWant {
+				texts = texts && got[k+i].Line == p.Line && got[k+i].State == p.State
+			}
+			for i, p := range payloadWant {
+				if texts && got[k+i].Mode != p.Mode {
+					return bad("c04/line-at-wrong-level:"+op.Kind, "line %q arrived while the device was in %q, must arrive in %q\n device received %s\n expected        %s",
+						p.Line, got[k+i].Mode, p.Mode, recsString(got), recsString(want))
+				}
 			}
 		}
 		// 2. exactly the path's commands in path order (+ payload), nothing else
@@ -504,8 +565,20 @@ func Run(s Sess) mon.Result {
 				before.mode, tname, len(up), len(down), asked, recsString(got), recsString(want))
 		}
 		// 3. the device ends in the target mode, at a prompt
-		if after.mode != tname || after.state != after.mode {
-			return bad("c04/wrong-final-mode:"+op.Kind, "device ends in %q (%s), target %q", after.mode, after.state, tname)
+		if after.mode != ename || after.state != after.mode {
+			return bad("c04/wrong-final-mode:"+op.Kind, "device ends in %q (%s), target %q, after the payload %q", after.mode, after.state, tname, ename)
+		}
+		if unsynced {
+			obs["judged_ops_after_payload_move"]++
+			if cached == tname && from != target {
+				obs["judged_ops_targeting_cached_level_with_device_elsewhere"]++
+			}
+			nontrivial = true
+		}
+		unsynced = endMode != target
+		if unsynced {
+			obs["payload_moves"]++
+			tag("payload-move-via=%s", op.Kind)
 		}
 
 		// observations
@@ -525,7 +598,7 @@ func Run(s Sess) mon.Result {
 		if stale {
 			obs["ops_with_stale_cached_level"]++
 		}
-		if nd.CurrentPriv == tname {
+		if nd.CurrentPriv == ename {
 			obs["cached_level_matches_device_after_op"]++
 		}
 		if len(up)+len(down) >= 2 || asked > 0 || stale {
@@ -569,7 +642,7 @@ func Run(s Sess) mon.Result {
 	}
 	return mon.Result{Verdict: mon.Held, NonTrivial: nontrivial, Obs: obs, Tags: tags,
 		Sample: map[string]interface{}{"kind": s.Kind, "variant": s.Variant, "tree (level<-previous)": names, "start": s.Levels[s.Start].Name,
-			"default": s.Levels[s.Default].Name, "ops": len(s.Ops), "first_ops": describeOps(&s, 6), "pairs": len(pairs),
+			"default": s.Levels[s.Default].Name, "ops": len(s.Ops), "first_ops": describeOps(&s, 6), "pairs": len(pairs), "not_judged_sendcommand_witness": witness,
 			"transport": devsim.Summary(conn.Log())}}
 }
 
@@ -594,6 +667,9 @@ func describe(s *Sess, op Op) string {
 		return fmt.Sprintf("SendConfig(%q, %s)", strings.Join(op.Lines, "\n"), lvl)
 	case "configs":
 		return fmt.Sprintf("SendConfigs(%q, %s)", op.Lines, lvl)
+	}
+	if len(op.Lines) > 0 {
+		return fmt.Sprintf("SendInteractive(%s %q, %s)", op.Inter, op.Lines, lvl)
 	}
 	return fmt.Sprintf("SendInteractive(%s, %s)", op.Inter, lvl)
 }
@@ -621,7 +697,9 @@ func init() {
 			"transition commands, which edges ask for the secret, start mode, default level, newline, return char, read size, read delay, search depth and read segmentation are PRNG-drawn. " +
 			"Failed-hop family (40 quick / 400 thorough): random sequences in which, during one call that needs >=1 hop, the device executes hop k of the path " +
 			"(mode changes) but holds its reaction back until the call (run with a 500 ms operation timeout) has failed; the reaction is then released and drained, and 2-4 more calls follow, SendCommand(s) first, " +
-			"judged by the usual oracle from the device's true mode. Non-trivial = the case contains a call whose tree path has >=2 steps, or that crosses an edge on which the device asked for the secret, or a hop whose reaction was really held back, or a SendCommand(s) call (the operations that consult the cached level) " +
+			"judged by the usual oracle from the device's true mode. Payload-moves family (40 quick / 400 thorough): random sequences in which the payload of SendConfig(s)/SendInteractive/SendCommand(s) contains valid transition commands " +
+			"(the level's own de-escalate, a child's escalate on a non-asking edge), so the device legitimately changes mode behind the cached level; the reference tracks the true mode through payload lines; " +
+			"the following call targets the level the driver still believes in with probability 0.6. Non-trivial = the case contains a judged call after a payload-induced move, or a call whose tree path has >=2 steps, or that crosses an edge on which the device asked for the secret, or a hop whose reaction was really held back, or a SendCommand(s) call (the operations that consult the cached level) " +
 			"issued while the cached level differs from the device's mode. Distinct = distinct descriptor hash.",
 		Assumptions: []string{
 			"the device is the causal devsim.CLI model: echo, newline, output, prompt; a transition command is honoured only in the mode it belongs to, anything else prints an error line and changes nothing; workload commands never change the mode",
@@ -631,6 +709,7 @@ func init() {
 			"the correct secondary secret is configured whenever some edge asks for it; search depth > longest prompt + longest output line",
 			"reference path: walk both levels up to the lowest common ancestor (treePath, 25 lines), independent of the library's graph search",
 			"failed-hop family: the held-back reaction (newline + prompt of the NEW mode) is released and completely delivered before the next call, so the only stale bytes the next call meets are a prompt that reflects the device's true mode; the hold is applied only when the device really received the chosen transition line, and a short-timeout failure before that point is inconclusive",
+			"payload-moves family, stated limitation: SendCommand/SendCommands consult only the cached level by design; when a payload moved the device since the library last read a prompt, the cached level equals the default desired level and the device is elsewhere, that SendCommand(s) call is NOT judged (counted in sendcommand_after_payload_move_ran_at_wrong_level); AcquirePriv, SendConfig(s) and SendInteractive are always judged. Transition lines in payloads go through the echo read (SendInput, or interactive events with an expected prompt), which swallows stale bytes, so a stale prompt never crosses a mode change",
 			"an operation timeout is judged only when every generated byte had been delivered and the load canary was quiet, otherwise inconclusive",
 		},
 		Gen: gen,
